@@ -179,4 +179,4 @@ class GroundedEffect:
             )
 
         for new_value in new_values:
-            state.state_fluents[new_value.untyped_representation] = new_value
+            state.state_fluents[new_value.untyped_representation] = new_value.copy()
